@@ -83,6 +83,27 @@ impl std::fmt::Debug for ZV {
     }
 }
 
+impl Serialize for ZK {
+    fn serialize<S: serde::Serializer>(&self, ser: S) -> Result<S::Ok, S::Error> {
+        ser.serialize_unit()
+    }
+}
+impl Serialize for ZV {
+    fn serialize<S: serde::Serializer>(&self, ser: S) -> Result<S::Ok, S::Error> {
+        ser.serialize_unit()
+    }
+}
+impl<'de> Deserialize<'de> for ZK {
+    fn deserialize<D: serde::Deserializer<'de>>(de: D) -> Result<ZK, D::Error> {
+        <()>::deserialize(de).map(|_| ZK::new())
+    }
+}
+impl<'de> Deserialize<'de> for ZV {
+    fn deserialize<D: serde::Deserializer<'de>>(de: D) -> Result<ZV, D::Error> {
+        <()>::deserialize(de).map(|_| ZV::new())
+    }
+}
+
 pub fn z_live() -> (i64, i64) {
     (ZK_LIVE.with(|c| c.get()), ZV_LIVE.with(|c| c.get()))
 }
@@ -136,6 +157,11 @@ pub enum ZOp {
     SetIterate,
     SetDrain(bool),
     SetClone,
+    /// serde: token streams of the zero-sized map and set, deserialisation, and (flag) an in-place
+    /// deserialisation into the set of a sequence of (count of map 0) % 3 elements
+    Serde(bool),
+    /// rayon traversals of the zero-sized collections in a pool of the given size class
+    Par(u8),
 }
 
 pub struct ZState {
@@ -193,6 +219,9 @@ impl<F: Fam> Ctx<F> {
                 let mut tags = vec![C01, C05];
                 if self.z.maps[0].verif_state().old.is_some() || self.z.set.verif_state().old.is_some() {
                     tags.push(C04);
+                }
+                if let Some(t) = self.z_panic_tags.take() {
+                    tags = t;
                 }
                 let detail = format!("{} @ {}", norm_msg(&msg), loc);
                 Err(self.mkfail(tags, "unexpected-panic-zst", format!("call on a zero-sized-element collection panicked: {:?} at {}", msg, loc), detail))
@@ -610,6 +639,105 @@ impl<F: Fam> Ctx<F> {
                     fail!(self, [C11], "clone-not-equal", "zero-sized set: clone != source");
                 }
             }
+            ZOp::Serde(in_place) => {
+                use serde_test::Token;
+                if self.z.maps[0].verif_state().old.map_or(false, |o| o.len > 0) || self.z.set.verif_state().old.map_or(false, |o| o.len > 0) {
+                    self.nt(C16);
+                }
+                let vh = self.z.vh;
+                let k_in_place = c0 % 3;
+                self.z_panic_tags = Some(vec![C16]);
+                let r = self.z_guard(|z| -> Result<usize, String> {
+                    // exact length, every element once (elements are indistinguishable, so "in
+                    // iteration order" says nothing here)
+                    let m = &z.maps[0];
+                    let n = m.len();
+                    let mut tokens: Vec<Token> = Vec::with_capacity(2 * n + 2);
+                    tokens.push(Token::Map { len: Some(n) });
+                    for _ in m.iter() {
+                        tokens.push(Token::Unit);
+                        tokens.push(Token::Unit);
+                    }
+                    tokens.push(Token::MapEnd);
+                    serde_test::assert_ser_tokens(m, &tokens);
+                    // all keys are equal: what comes back holds one pair (or none), which equals the
+                    // original exactly when the original holds at most one
+                    let mut expect = ZMap::with_hasher(vh);
+                    if n > 0 {
+                        expect.insert(ZK::new(), ZV::new());
+                    }
+                    serde_test::assert_de_tokens(&expect, &tokens);
+                    if n <= 1 && (expect != *m || *m != expect) {
+                        return Err("zero-sized map: the deserialised map is != the original".to_string());
+                    }
+                    let s = &z.set;
+                    let n = s.len();
+                    let mut tokens: Vec<Token> = Vec::with_capacity(n + 2);
+                    tokens.push(Token::Seq { len: Some(n) });
+                    for _ in s.iter() {
+                        tokens.push(Token::Unit);
+                    }
+                    tokens.push(Token::SeqEnd);
+                    serde_test::assert_ser_tokens(s, &tokens);
+                    let mut expect = ZSet::with_hasher(vh);
+                    if n > 0 {
+                        expect.insert(ZK::new());
+                    }
+                    serde_test::assert_de_tokens(&expect, &tokens);
+                    let json = serde_json::to_string(s).map_err(|e| format!("serialisation failed: {}", e))?;
+                    let back: ZSet = serde_json::from_str(&json).map_err(|e| format!("deserialisation failed: {}", e))?;
+                    if back.len() != n.min(1) || (n <= 1 && (back != *s || *s != back)) {
+                        return Err(format!("zero-sized set: JSON round trip of {} element(s) gave {}", n, back.len()));
+                    }
+                    if in_place {
+                        let json = format!("[{}]", vec!["null"; k_in_place].join(","));
+                        let mut de = serde_json::Deserializer::from_str(&json);
+                        serde::Deserialize::deserialize_in_place(&mut de, &mut z.set).map_err(|e| format!("deserialize_in_place failed: {}", e))?;
+                        return Ok(z.set.len());
+                    }
+                    Ok(n)
+                });
+                self.z_panic_tags = None;
+                match r? {
+                    Err(msg) => fail!(self, [C16], "serde-mismatch", "{}", msg),
+                    Ok(n) => {
+                        if in_place {
+                            if n != k_in_place.min(1) {
+                                fail!(self, [C16], "serde-in-place", "zero-sized set: deserialize_in_place of {} element(s) left {} (previously {})", k_in_place, n, sc);
+                            }
+                            self.z.set_count = n;
+                        }
+                    }
+                }
+            }
+            ZOp::Par(threads) => {
+                use rayon::iter::{IntoParallelRefIterator, IntoParallelRefMutIterator, ParallelIterator};
+                if self.z.maps[0].verif_state().old.map_or(false, |o| o.len > 0) || self.z.set.verif_state().old.map_or(false, |o| o.len > 0) {
+                    self.nt(C15);
+                }
+                let pool = crate::features::pool(threads);
+                self.z_panic_tags = Some(vec![C15]);
+                let r = self.z_guard(|z| {
+                    let (maps, set) = (&mut z.maps, &z.set);
+                    pool.install(|| {
+                        let m = &mut maps[0];
+                        let a = [m.par_iter().count(), m.par_keys().count(), m.par_values().count(), m.par_iter_mut().count(), m.par_values_mut().count()];
+                        let eq_self = m.par_eq(m) == (*m == *m);
+                        let o = &maps[1];
+                        let m = &maps[0];
+                        let eq_other = m.par_eq(o) == (*m == *o) && o.par_eq(m) == (*o == *m);
+                        (a, set.par_iter().count(), eq_self && eq_other, set.par_eq(set) == (*set == *set))
+                    })
+                });
+                self.z_panic_tags = None;
+                let (a, sn, eq_m, eq_s) = r?;
+                if a.iter().any(|x| *x != c0) || sn != sc {
+                    fail!(self, [C15], "rayon-mismatch", "zero-sized collections: parallel traversals visited {:?} / {} elements, the map holds {}, the set {}", a, sn, c0, sc);
+                }
+                if !eq_m || !eq_s {
+                    fail!(self, [C15], "rayon-mismatch", "zero-sized collections: par_eq disagrees with ==");
+                }
+            }
         }
         let owners: &[Prop] = match *op {
             ZOp::Retain(..) | ZOp::DrainFilter(..) | ZOp::SetRetain(_) => &[C09],
@@ -617,6 +745,8 @@ impl<F: Fam> Ctx<F> {
             ZOp::Reserve(_) | ZOp::TryReserve(_) | ZOp::ShrinkToFit | ZOp::ShrinkTo(_) | ZOp::SetReserve(_) | ZOp::SetShrink => &[C10],
             ZOp::CloneTo | ZOp::CloneFrom | ZOp::SetClone => &[C11],
             ZOp::EntryReplace(_) | ZOp::RawReplace(_) | ZOp::EntryRemove | ZOp::RawRemove | ZOp::OrInsert => &[C12],
+            ZOp::Serde(_) => &[C16],
+            ZOp::Par(_) => &[C15],
             _ => &[],
         };
         self.z_check_tagged(owners)
